@@ -161,7 +161,7 @@ def run(rep: C.Report):
                         "tree equality after the rerun ignores mtimes (a kill before utime leaves a local mtime)"]
     C.proof_step(rep, thorough=(rep.tier == "thorough"))
     rng = random.Random(rep.seed + 7)
-    nscn, npts = (14, 24) if rep.tier == "quick" else (200, 400)
+    nscn, npts = (14, 24) if rep.tier == "quick" else (100, 200)
     sb = P.sandbox("vsb_c07_")
     found = False
     rows = []
